@@ -16,6 +16,7 @@ const bstBoundedSrc = `package helper
 import (
 	"encoding/json"
 	"fmt"
+	"math"
 	"os"
 	"testing"
 )
@@ -139,14 +140,15 @@ func TestZZBstBounded(t *testing.T) {
 	maxLen := 5
 	fmt.Sscan(os.Getenv("VERIF_BST_LEN"), &maxLen)
 	var out []zzBstRes
-	// family 1: four values (type extremes), queries are operations of the history
+	// family 1: four values (type extremes; for float64 the infinities, which are ordered like any other value), queries are
+	// operations of the history
 	out = append(out, zzBstRun[int8]("int8", []int8{-128, -1, 100, 127}, maxLen, true))
 	out = append(out, zzBstRun[int64]("int64", []int64{-9223372036854775808, -1, 9007199254740993, 9223372036854775807}, maxLen, true))
-	out = append(out, zzBstRun[float64]("float64", []float64{-1.5e300, 0, 2.5, 1.5e300}, maxLen, true))
+	out = append(out, zzBstRun[float64]("float64", []float64{math.Inf(-1), 0, 2.5, math.Inf(1)}, maxLen, true))
 	// family 2: three values, Insert/Remove only, two steps longer: deep enough for removals that follow a
 	// two-children removal among duplicates (everything observable is still compared at the end of every history)
 	out = append(out, zzBstRun[int8]("int8/3-values", []int8{2, 4, 7}, maxLen+2, false))
-	out = append(out, zzBstRun[float64]("float64/3-values", []float64{-0.5, 0, 2.5}, maxLen+2, false))
+	out = append(out, zzBstRun[float64]("float64/3-values", []float64{-1.5e300, 0, 1.5e300}, maxLen+2, false))
 	b, _ := json.Marshal(out)
 	os.WriteFile(os.Getenv("VERIF_REPLAY_OUT"), b, 0o644)
 }
